@@ -135,7 +135,9 @@ func (m *expirationMap[V]) cleanup(store store[V], policy *defaultPolicy[V], onE
 		for key, conflict := range keys {
 			expr := store.Expiration(key)
 			// Sanity check. Verify that the store agrees that this key is expired.
-			if expr.After(now) {
+			// A zero expiration means the key is gone or has been re-written
+			// without a TTL in the meantime; it must not be evicted either.
+			if expr.IsZero() || expr.After(now) {
 				continue
 			}
 
